@@ -66,7 +66,8 @@ def summarize(crate, path, ck=None, closure=False):
     b = crate.body(path)
     if b is None:
         return None, None
-    ps = pathsum.PathSum(enums_of(crate), inline_helpers(crate))
+    ps = pathsum.PathSum(enums_of(crate), inline_helpers(crate), const_bodies(crate))
+    ps._inl_stack.append(hir.base_path(path))
     v = hir.async_full(b["value"])
     params = b["params"]
     if closure:
@@ -88,9 +89,12 @@ _inl = {}
 
 
 def inline_helpers(crate):
-    """Small local helper functions of the parser module that are evaluated in place by pathsum:
-    non-async free functions / inherent methods under microscpi::parser:: that are neither parsers
-    (return ParseResult) nor parser factories (return impl Fn)."""
+    """Private local helper functions that pathsum evaluates in place at their call sites (so that extracting a step into a
+    helper does not hide it from the rules): non-public free functions and inherent methods of the library, except
+    * trait impl methods and trait default methods (dispatch points of the design: run, process, execute, write_response ...),
+    * parsers with the plain shape `fn(&[u8]) -> ParseResult` and parser factories (`-> impl Fn`): they are the nodes of the
+      parser skeleton; a *parametrised* private parser (extra parameters before the input) is evaluated in place.
+    For an `async fn` the coroutine body is evaluated at the call and `.await` passes its value through."""
     key = id(crate)
     if key in _inl:
         return _inl[key]
@@ -99,17 +103,22 @@ def inline_helpers(crate):
         d = b["def"]
         if b["kind"] not in ("Fn", "AssocFn") or "::{" in d or b.get("trait") or b.get("trait_default"):
             continue
-        if d.startswith("microscpi::parser::") and not b.get("is_async"):
-            ret = b.get("ret", "")
-            if ret.startswith("core::result::Result<(&") or ret.startswith("impl ") or ret == "bool":
-                continue
-            out[hir.base_path(d)] = b
-        elif d.startswith("microscpi::interface::") and b["kind"] == "Fn":
-            # free helper functions next to run/process (e.g. an extracted "send the response" step): evaluated in place;
-            # for an `async fn` the coroutine body is evaluated at the call and `.await` passes its value through
-            out[hir.base_path(d)] = {"params": b["params"], "value": hir.async_full(b["value"]), "def": d}
+        if not d.startswith(crate.name + "::") and not d.startswith("<" + crate.name + "::"):
+            continue
+        if "Public" in (b.get("vis") or "Public"):
+            continue
+        ret = b.get("ret", "")
+        if ret.startswith("impl "):
+            continue
+        if ret.startswith("core::result::Result<(&") and len(b["params"]) <= 1:
+            continue
+        out[hir.base_path(d)] = {"params": b["params"], "value": hir.async_full(b["value"]), "def": d}
     _inl[key] = out
     return out
+
+
+def const_bodies(crate):
+    return {b["def"]: b["value"] for b in crate.facts["bodies"] if b["kind"].startswith("Const") or b["kind"].startswith("AssocConst")}
 
 
 def returned_closure(v):
